@@ -249,4 +249,115 @@ def requiredL (ps : List T) : List T :=
   | p :: rest => required p ++ requiredL rest
 end
 
+/-! ### C11: "the pattern is a generalisation of this fragment of the program", decided for one concrete case
+
+Bool mirror of the relation `genAt` of PedalProofs/CaitGen.lean (proved sound for it there: `genChk_sound`),
+with the correspondence between pattern nodes and program nodes GIVEN as an alignment `al` (pattern path ↦
+program path; the harness knows it from the derivation), the expected identifier of every `_v_` key (`rho`) and
+the expected path of every `__e__` key (`eps`).  `genCase` decides the hypotheses of the C11 theorem
+`c11_generalised_fragment_matches` for a pattern / program pair; the driver evaluates it on every derived case. -/
+
+/-- the identifier field of a node whose identifier is a `_v_` / `___` placeholder is not compared -/
+def skipField (p : T) : Option String :=
+  match identField p.kind with
+  | none => none
+  | some f =>
+    match nameClass (p.strAttr f) with
+    | .var => some f
+    | .wild => some f
+    | _ => none
+
+
+def fldGenB (skip : Option String) (fi fs : Fld) : Bool :=
+  fi.name = fs.name &&
+    (some fi.name = skip || fi.val = .none || fi.val = fs.val ||
+      match fi.val with
+      | .one .node => true
+      | .many li => li.all (fun x => x = Item.node)
+      | _ => false)
+
+def fldsGenB (skip : Option String) : List Fld → List Fld → Bool
+  | [], [] => true
+  | a :: as, b :: bs => fldGenB skip a b && fldsGenB skip as bs
+  | _, _ => false
+
+def rhoF (rho : List (String × String)) (k : String) : String := (dictGet k rho).getD ""
+def epsF (eps : List (String × Path)) (k : String) : Option Path := dictGet k eps
+
+def identGenB (rho : List (String × String)) (p t : T) : Bool :=
+  match identField p.kind with
+  | none => true
+  | some f =>
+    match nameClass (p.strAttr f) with
+    | .var => rhoF rho (p.strAttr f) = t.strAttr f
+    | .wild => true
+    | _ => p.strAttr f = t.strAttr f
+
+def nodeGenB (rho : List (String × String)) (p t : T) : Bool :=
+  t.kind = p.kind && fldsGenB (skipField p) p.flds t.flds && identGenB rho p t
+
+def opGenB (op sop : T) : Bool :=
+  sop.kind = op.kind && op.field = sop.field && fldsGenB none op.flds sop.flds
+
+mutual
+def genChk (rho : List (String × String)) (eps : List (String × Path)) (al : List (Path × Path))
+    (pp : Path) (p : T) (sp : Path) (t : T) : Bool :=
+  match p with
+  | .mk k f fl kids =>
+    match role (.mk k f fl kids) with
+    | .expPh name => dictGet name eps = some sp
+    | r =>
+      if (k = "Name" || k = "Expr") && r = .wildcard then true
+      else
+        nodeGenB rho (.mk k f fl kids) t &&
+        if flexOp (.mk k f fl kids) then genChkFlex rho eps al pp kids sp t
+        else genChkKids rho eps al (if k = "Name" then ["ctx"] else []) pp 0 kids sp 0 t
+
+def genChkFlex (rho : List (String × String)) (eps : List (String × Path)) (al : List (Path × Path))
+    (pp : Path) (kids : List T) (sp : Path) (t : T) : Bool :=
+  match kids with
+  | [l, op, rr] =>
+    match t.kids with
+    | [sl, sop, sr] =>
+      opGenB op sop && l.field = sl.field && rr.field = sr.field &&
+        genChk rho eps al (pp ++ [0]) l (sp ++ [0]) sl && genChk rho eps al (pp ++ [2]) rr (sp ++ [2]) sr
+    | _ => false
+  | _ => false
+
+def genChkKids (rho : List (String × String)) (eps : List (String × Path)) (al : List (Path × Path))
+    (ig : List String) (pp : Path) (i : Nat) (ps : List T) (sp : Path) (minJ : Nat) (t : T) : Bool :=
+  match ps with
+  | [] => true
+  | pc :: rest =>
+    if ig.contains pc.field then genChkKids rho eps al ig pp (i + 1) rest sp minJ t
+    else
+      match dictGet (pp ++ [i]) al with
+      | none => false
+      | some q =>
+        match q.getLast? with
+        | none => false
+        | some j =>
+          q = sp ++ [j] && decide (minJ ≤ j) &&
+          (match t.kids[j]? with
+           | some sj => pc.field = sj.field && genChk rho eps al (pp ++ [i]) pc q sj
+           | none => false) &&
+          genChkKids rho eps al ig pp (i + 1) rest sp (j + 1) t
+end
+
+
+/-- the hypotheses of `c11_generalised_fragment_matches`, decided for one concrete case: the pattern `p`, the
+program `s`, the expected bindings and the alignment (pattern path ↦ program path) of the derivation -/
+def genCase (p s : T) (rho : List (String × String)) (eps : List (String × Path)) (al : List (Path × Path)) : Bool :=
+  let pr := trimGo p []
+  let sr := trimRoot s
+  opLeaves p &&
+  match dictGet pr.2 al with
+  | none => false
+  | some P =>
+    sr.2.isPrefixOf P &&
+    match sr.1.at? (P.drop sr.2.length) with
+    | none => false
+    | some t => genChk rho eps al pr.2 pr.1 P t && (rootField p = "none" || rootField p = t.field)
+
+
 end Pedal.Cait
